@@ -89,51 +89,127 @@ fn test_runner(args: &[String]) -> i32 {
     use libcnb_test::{BuildConfig, BuildpackReference, ContainerConfig, PackResult, TestContext, TestRunner};
     let v: Value = serde_json::from_str(&args[0]).expect("scenario json");
 
+    /// order in which the configuration setters are called: a permutation derived from the scenario's `call_order`
+    /// value (0 = the canonical order); every order must describe the same configuration
+    fn permutation(n: usize, seed: u64) -> Vec<usize> {
+        let mut idx: Vec<usize> = (0..n).collect();
+        if seed == 0 {
+            return idx;
+        }
+        let mut x = seed.wrapping_mul(0x9E37_79B9_7F4A_7C15) | 1;
+        for i in (1..n).rev() {
+            x ^= x << 13;
+            x ^= x >> 7;
+            x ^= x << 17;
+            idx.swap(i, (x % (i as u64 + 1)) as usize);
+        }
+        idx
+    }
     fn build_cfg(c: &Value) -> BuildConfig {
-        let mut cfg = BuildConfig::new(c["builder"].as_str().unwrap(), c["app_dir"].as_str().unwrap());
+        let order = c["call_order"].as_u64().unwrap_or(0);
+        let app_dir = c["app_dir"].as_str().unwrap().to_string();
+        // odd orders: the config starts out for another fixture (a shared default config) and gets its app_dir later
+        let late_app_dir = order % 2 == 1;
+        let mut cfg = BuildConfig::new(c["builder"].as_str().unwrap(), if late_app_dir { "fixtures/some-other-app" } else { app_dir.as_str() });
         let mut bps: Vec<BuildpackReference> = c["buildpacks"].as_array().unwrap().iter().map(|b| BuildpackReference::Other(b.as_str().unwrap().to_string())).collect();
         match c["crate_buildpack"].as_str() {
             Some("current") => bps.insert(0, BuildpackReference::CurrentCrate),
             Some("workspace") => bps.insert(0, BuildpackReference::WorkspaceBuildpack("verif/current".parse().unwrap())),
             _ => {}
         }
-        if c["crate_buildpack"].is_string() {
-            // the musl target is not installed in this sandbox
-            cfg.target_triple("x86_64-unknown-linux-gnu");
-        }
-        cfg.buildpacks(bps);
-        for kv in c["env"].as_array().unwrap() {
-            cfg.env(kv[0].as_str().unwrap(), kv[1].as_str().unwrap());
-        }
-        if c["expect_failure"] == true {
-            cfg.expected_pack_result(PackResult::Failure);
-        }
-        if c["preprocessor"] == true {
-            let tag = c["pre_tag"].as_u64().unwrap_or(0);
-            cfg.app_dir_preprocessor(move |p| {
-                let name = if tag == 0 { "preprocessed.txt".to_string() } else { format!("preprocessed-{tag}.txt") };
-                std::fs::write(p.join(name), b"added by the preprocessor").unwrap();
-                let _ = std::fs::remove_file(p.join("remove-me.txt"));
-            });
+        let tag = c["pre_tag"].as_u64().unwrap_or(0);
+        for step in permutation(6, order) {
+            match step {
+                0 => {
+                    if c["crate_buildpack"].is_string() {
+                        // the musl target is not installed in this sandbox
+                        cfg.target_triple("x86_64-unknown-linux-gnu");
+                    }
+                }
+                1 => {
+                    cfg.buildpacks(bps.clone());
+                }
+                2 => {
+                    // pairs keep their relative order (a repeated key: the last value wins); every third order uses envs()
+                    let pairs: Vec<(String, String)> = c["env"].as_array().unwrap().iter().map(|kv| (kv[0].as_str().unwrap().to_string(), kv[1].as_str().unwrap().to_string())).collect();
+                    if order % 3 == 2 {
+                        cfg.envs(pairs);
+                    } else {
+                        for (k, v) in pairs {
+                            cfg.env(k, v);
+                        }
+                    }
+                }
+                3 => {
+                    if c["expect_failure"] == true {
+                        cfg.expected_pack_result(PackResult::Failure);
+                    }
+                }
+                4 => {
+                    if c["preprocessor"] == true {
+                        cfg.app_dir_preprocessor(move |p| {
+                            let name = if tag == 0 { "preprocessed.txt".to_string() } else { format!("preprocessed-{tag}.txt") };
+                            std::fs::write(p.join(name), b"added by the preprocessor").unwrap();
+                            let _ = std::fs::remove_file(p.join("remove-me.txt"));
+                            // make the vendored read-only file writable and extend it in place
+                            let ro = p.join("vendor/readonly.sh");
+                            if ro.exists() {
+                                std::fs::set_permissions(&ro, std::os::unix::fs::PermissionsExt::from_mode(0o755)).unwrap();
+                                let mut f = std::fs::OpenOptions::new().append(true).open(&ro).unwrap();
+                                std::io::Write::write_all(&mut f, b" + preprocessed").unwrap();
+                            }
+                        });
+                    }
+                }
+                _ => {
+                    if late_app_dir {
+                        cfg.app_dir(app_dir.clone());
+                    }
+                }
+            }
         }
         cfg
     }
     fn container_cfg(c: &Value) -> ContainerConfig {
+        let order = c["call_order"].as_u64().unwrap_or(0);
         let mut cfg = ContainerConfig::new();
-        if let Some(e) = c["entrypoint"].as_str() {
-            cfg.entrypoint(e);
-        }
-        if let Some(cmd) = c["command"].as_array() {
-            cfg.command(cmd.iter().map(|x| x.as_str().unwrap().to_string()).collect::<Vec<_>>());
-        }
-        for kv in c["env"].as_array().unwrap() {
-            cfg.env(kv[0].as_str().unwrap(), kv[1].as_str().unwrap());
-        }
-        for p in c["ports"].as_array().unwrap() {
-            cfg.expose_port(p.as_u64().unwrap() as u16);
-        }
-        for m in c["mounts"].as_array().unwrap() {
-            cfg.bind_mount(m[0].as_str().unwrap(), m[1].as_str().unwrap());
+        for step in permutation(5, order) {
+            match step {
+                0 => {
+                    if let Some(e) = c["entrypoint"].as_str() {
+                        if order % 4 == 3 {
+                            // set twice: the later call replaces the earlier value
+                            cfg.entrypoint("decoy-entrypoint");
+                        }
+                        cfg.entrypoint(e);
+                    }
+                }
+                1 => {
+                    if let Some(cmd) = c["command"].as_array() {
+                        cfg.command(cmd.iter().map(|x| x.as_str().unwrap().to_string()).collect::<Vec<_>>());
+                    }
+                }
+                2 => {
+                    let pairs: Vec<(String, String)> = c["env"].as_array().unwrap().iter().map(|kv| (kv[0].as_str().unwrap().to_string(), kv[1].as_str().unwrap().to_string())).collect();
+                    if order % 3 == 2 {
+                        cfg.envs(pairs);
+                    } else {
+                        for (k, v) in pairs {
+                            cfg.env(k, v);
+                        }
+                    }
+                }
+                3 => {
+                    for p in c["ports"].as_array().unwrap() {
+                        cfg.expose_port(p.as_u64().unwrap() as u16);
+                    }
+                }
+                _ => {
+                    for m in c["mounts"].as_array().unwrap() {
+                        cfg.bind_mount(m[0].as_str().unwrap(), m[1].as_str().unwrap());
+                    }
+                }
+            }
         }
         cfg
     }
